@@ -52,6 +52,11 @@ CHECKS = {
         note="Trusted: z3 (LIA/LRA), the rounded-real characterisation of round-to-nearest (over-approximation: unsat is sound), CPython's documented algorithms for int/int division, timedelta(seconds=), total_seconds(); iso8601 parsing modelled only for the shape isoformat() emits; jsonschema validation runs on the native replays only.",
         ref="§4, §7 C13",
     ),
+    "C20": dict(
+        text="The real _merge / load_config_toml / _comment_out_toml (compiled from the current source) are executed with default and user documents whose nested shape is explored by forking and whose scalar leaves are symbolic, with and without an existing file, twice per process; z3 decides on every path that the result equals an independent overlay at every depth, and for _comment_out_toml on lines of arbitrary Unicode characters that every output line is blank, a comment or a header and keeps its content. File effects are observed through an in-memory file table.",
+        note="Trusted: z3, shadows; tomlkit's text<->dict parsing is stubbed by prepared nested dicts (third-party parser, outside the claim) and cross-checked on 4 real documents with real tomlkit and real files. Bounded by nesting shape ([2,1] quick; depth 3 thorough) and <=3 lines x <=4 chars.",
+        ref="§7 C20",
+    ),
 }
 
 NOT_YET = "check not built yet (work in progress; see DESIGN.md §7 for the plan)"
